@@ -270,7 +270,7 @@ struct Observed {
     snaps: Vec<(Vec<(u32, Option<(u32, u32)>)>, Vec<(u32, Option<u64>)>)>,
 }
 
-fn execute(case: &Case) -> Observed {
+fn execute(case: &Case, mode: RtMode) -> Observed {
     let machines: Vec<MachineSpec> = case
         .slots
         .iter()
@@ -285,7 +285,7 @@ fn execute(case: &Case) -> Observed {
     let sc = Scenario {
         nets: vec![NetSpec { mtu: case.mtu, lat_us: (case.lat_us, 0), thr: (0, 0) }],
         machines,
-        mode: RtMode::Paused,
+        mode,
         duration_us: case.dur_us,
     };
     let plan = case.plan.clone();
@@ -304,7 +304,15 @@ fn execute(case: &Case) -> Observed {
             Plan::Dup(d) => VerifFramePlan::Duplicate(Duration::from_micros(d)),
         }
     });
-    let built = build(&sc, Some(planner), &|_, m, _| m);
+    // real-time runs end once the log has been quiet for longer than a retry round
+    let quiesce = mode != RtMode::Paused;
+    let built = build(&sc, Some(planner), &|idx, m, log| {
+        if quiesce && idx == 0 {
+            m.with(Quiesce { log: log.clone(), active: true, stable_ms: (delay_us() / 1000) * 3 / 2 + 50 })
+        } else {
+            m
+        }
+    });
     let log = built.log.clone();
     let ms = built.machines.clone();
     let dur = Duration::from_micros(sc.duration_us);
@@ -398,7 +406,7 @@ fn run_case(case: &Case) -> CaseReport {
     for l in case.to_lines() {
         rep.line(l, "cfg");
     }
-    let obs = execute(case);
+    let obs = execute(case, RtMode::Paused);
     let macs = &obs.macs;
     rep.line(
         format!("init {} {}", case.mtu.map(|m| m.to_string()).unwrap_or("-".into()), case.slots.iter().map(|s| s.to_string()).collect::<Vec<_>>().join(",")),
@@ -721,6 +729,177 @@ fn run_case(case: &Case) -> CaseReport {
 }
 
 // ------------------------------------------------------------------------------------------
+// multi_thread runtime (real time): oracle only
+// ------------------------------------------------------------------------------------------
+
+/// The same scenario on a multi_thread runtime with `workers` threads.  Time is real and the
+/// schedule is whatever the threads do, so nothing is replayed through the model; the oracle
+/// keeps the clauses that do not depend on exact instants: an answer is the owner's MAC, an
+/// unclaimed address is never answered, only owners announce/answer, no call outlives its budget,
+/// a claimed address on a loss-free LAN is resolved, concurrent answers agree.
+fn run_case_mt(case: &Case, workers: usize) -> CaseReport {
+    let mut rep = CaseReport::default();
+    for l in case.to_lines() {
+        rep.line(l, "cfg");
+    }
+    let t_real = std::time::Instant::now();
+    let obs = execute(case, RtMode::MultiThread(workers));
+    let macs = &obs.macs;
+    let cfg_of: BTreeMap<usize, &Res> = case.resolves.iter().map(|r| (r.rid, r)).collect();
+    let mut ips: Vec<BTreeMap<u32, Option<(u32, u32)>>> = vec![BTreeMap::new(); case.slots.len()];
+    struct R {
+        m: usize,
+        dest: u32,
+        start_t: u64,
+        claimed_at_start: bool,
+        done: Option<(Result<u64, ()>, u64)>,
+    }
+    let mut rs: BTreeMap<usize, R> = BTreeMap::new();
+    let mut fails: Vec<(String, String)> = vec![];
+    let mut dropped: Vec<u64> = vec![];
+    let mut learned: Vec<(u64, usize, u32, u64)> = vec![];
+    let slack = 400_000u64; // scheduling slack on a loaded machine, in real microseconds
+    for e in &obs.events {
+        let t = e.t_us;
+        match &e.ev {
+            Ev::Note(s) if s.starts_with("c06 ") => {
+                let w: Vec<&str> = s.split_whitespace().collect();
+                match w.as_slice() {
+                    ["c06", "listen", m, ip] => {
+                        ips[m.parse::<usize>().unwrap()].entry(ip.parse().unwrap()).or_insert(None);
+                    }
+                    ["c06", "subnet", m, ip, bits, gw] => {
+                        ips[m.parse::<usize>().unwrap()].insert(ip.parse().unwrap(), Some((bits.parse().unwrap(), gw.parse().unwrap())));
+                    }
+                    ["c06", "start", rid] => {
+                        let rid: usize = rid.parse().unwrap();
+                        let r = cfg_of[&rid];
+                        ips[r.m].entry(r.local).or_insert(None);
+                        let dest = match ips[r.m][&r.local] {
+                            Some((bits, gw)) if (r.local & prefix_mask(bits)) != (r.remote & prefix_mask(bits)) => gw,
+                            _ => r.remote,
+                        };
+                        let claimed = (0..ips.len()).any(|m| ips[m].contains_key(&dest));
+                        rs.insert(rid, R { m: r.m, dest, start_t: t, claimed_at_start: claimed, done: None });
+                    }
+                    ["c06", "imm", rid, rest @ ..] | ["c06", "done", rid, rest @ ..] => {
+                        if let Some(st) = rs.get_mut(&rid.parse::<usize>().unwrap()) {
+                            st.done = Some((parse_res(rest), t));
+                        }
+                    }
+                    _ => {}
+                }
+            }
+            Ev::Wire { to: None, smac, dst, target: Target::Arp, bytes, plan, .. } => {
+                if plan == "drop" {
+                    dropped.push(t);
+                }
+                match (decode(bytes), mach_of_mac(macs, *smac)) {
+                    (Some(p), Some(sm)) => {
+                        if p.smac != *smac || !ips[sm].contains_key(&p.sip) {
+                            fails.push((format!("machine {} (tap {}) sends an ARP packet announcing {} -> MAC {} which is not its own claimed address/MAC", sm, smac, fmt_addr(p.sip), p.smac), "foreign-mapping".into()));
+                        }
+                        if p.oper == 2 && *dst != Some(p.tmac) {
+                            fails.push((format!("ARP reply from machine {} addressed to {:?}, requester is {}", sm, dst, p.tmac), "reply-address".into()));
+                        }
+                    }
+                    _ => fails.push((format!("undecodable ARP frame {} from tap {}", hex(bytes), smac), "bad-frame".into())),
+                }
+            }
+            Ev::Wire { to: Some(to), target: Target::Arp, bytes, .. } => {
+                if let (Some(p), Some(tm)) = (decode(bytes), mach_of_mac(macs, *to)) {
+                    learned.push((t, tm, p.sip, p.smac));
+                }
+            }
+            _ => {}
+        }
+    }
+    let end_t = obs.events.last().map(|e| e.t_us).unwrap_or(0);
+    let mtu_ok = case.mtu.map(|m| m >= 28).unwrap_or(true);
+    let mut summary: Vec<String> = vec![];
+    for (rid, st) in rs.iter() {
+        let who: Vec<usize> = (0..ips.len()).filter(|m| ips[*m].contains_key(&st.dest)).collect();
+        let desc = format!("[multi_thread x{}] resolution {} on machine {} of {}", workers, rid, st.m, fmt_addr(st.dest));
+        match &st.done {
+            None => {
+                summary.push(format!("r{}=pending", rid));
+                if end_t > st.start_t + budget_us() + 2 * slack {
+                    fails.push((format!("{} started at {} us has not returned at {} us (budget {} us)", desc, st.start_t, end_t, budget_us()), "hang".into()));
+                }
+            }
+            Some((Ok(mac), t)) => {
+                summary.push(format!("r{}=ok", rid));
+                rep.count("result.ok");
+                if !(who.len() == 1 && macs[who[0]].contains(mac)) {
+                    fails.push((
+                        format!("{} returned MAC {} (a tap of machine {:?}); the address is claimed by machine(s) {:?}", desc, mac, mach_of_mac(macs, *mac), who),
+                        if who.is_empty() { "ok-for-unclaimed".into() } else { "wrong-mac".into() },
+                    ));
+                }
+                if *t > st.start_t + budget_us() + slack {
+                    fails.push((format!("{} returned after {} us, beyond the retry budget", desc, t - st.start_t), "late-answer".into()));
+                }
+            }
+            Some((Err(()), t)) => {
+                summary.push(format!("r{}=err", rid));
+                rep.count("result.err");
+                if *t > st.start_t + budget_us() + slack {
+                    fails.push((format!("{} failed after {} us, beyond the retry budget of {} us", desc, t - st.start_t, budget_us()), "late-failure".into()));
+                }
+                if who.len() == 1 {
+                    // the owner's mapping reached the machine clearly before the call gave up
+                    if let Some((lt, _, _, smac)) = learned.iter().find(|(lt, tm, sip, smac)| *tm == st.m && *sip == st.dest && *lt > st.start_t + slack / 8 && *lt + slack < *t && macs[who[0]].contains(smac)) {
+                        fails.push((format!("{} started at {} us returned Err at {} us although the owner's answer (MAC {}) reached the machine at {} us", desc, st.start_t, t, smac, lt), "err-despite-exchange".into()));
+                    } else if st.claimed_at_start && mtu_ok && dropped.is_empty() {
+                        fails.push((format!("{} started at {} us returned Err at {} us; the address was claimed before the call and no frame of the run was lost", desc, st.start_t, t), "err-lossfree".into()));
+                    }
+                }
+            }
+        }
+    }
+    let mut by_dest: BTreeMap<u32, Vec<u64>> = BTreeMap::new();
+    for st in rs.values() {
+        if let Some((Ok(m), _)) = &st.done {
+            by_dest.entry(st.dest).or_default().push(*m);
+        }
+    }
+    for (d, ms) in by_dest.iter() {
+        let owners: Vec<Option<usize>> = ms.iter().map(|m| mach_of_mac(macs, *m)).collect();
+        if owners.windows(2).any(|w| w[0] != w[1]) {
+            fails.push((format!("[multi_thread x{}] resolutions of {} returned MACs {:?} of different machines", workers, fmt_addr(*d), ms), "disagreement".into()));
+        }
+    }
+    rep.line(format!("mt {}", workers), summary.join(" "));
+    rep.nontrivial = rs.values().any(|st| matches!(st.done, Some((Ok(_), _)))) && case.resolves.len() >= 2;
+    rep.count(format!("workers.{}", workers));
+    rep.count_n("real_ms", t_real.elapsed().as_millis() as u64);
+    for (what, ident) in fails {
+        rep.fail(what, ident);
+    }
+    rep
+}
+
+/// scenarios for the real-time runs: everything claimed before the barrier, calls within the
+/// first 300 ms, light loss
+fn gen_mt(rng: &mut Rng) -> Case {
+    let mut c = gen(rng);
+    for cl in c.claims.iter_mut() {
+        cl.at = None;
+    }
+    c.claims.sort_by_key(|cl| cl.sub.is_none()); // set_subnet first, so that later plain listens keep it
+    for r in c.resolves.iter_mut() {
+        r.at = (r.at % (300 * MS)) / MS * MS;
+    }
+    c.resolves.truncate(5);
+    let loss = *rng.pick(&[0u64, 0, 0, 20, 50]);
+    c.plan = (0..40).map(|_| if rng.below(100) < loss { Plan::Drop } else if rng.chance(1, 10) { Plan::Delay(*rng.pick(&[MS, 20 * MS, 150 * MS])) } else { Plan::Deliver }).collect();
+    c.lat_us = *rng.pick(&[0u64, 0, MS]);
+    c.mtu = None;
+    c.dur_us = 300 * MS + budget_us() + 1500 * MS;
+    c
+}
+
+// ------------------------------------------------------------------------------------------
 // generator
 // ------------------------------------------------------------------------------------------
 
@@ -906,20 +1085,29 @@ fn fixed_cases() -> Vec<Case> {
 
 const RULE: &str = "LANs of 2..12 machines (1-2 taps), 1-3 claimed addresses each (some appearing later, 40% with SubnetInfo: masks 0..33, gateway = some machine / nobody / itself), 1..8 resolutions (own, others', unclaimed and off-subnet targets; bursts of concurrent resolvers of one address on one or several machines), fault plan over the ARP frames in send order (loss 0..100%, leading drops, delays 1..450 ms, duplicates), latency 0/1/30 ms, MTU none/1500/28/27; paused-clock runtime; non-trivial = a resolution that had to wait got an answer and the case has a lost frame, a failed resolution, a concurrent pair or a gateway substitution; distinct = hash of the configuration lines";
 
+const RULE_MT: &str = "the generator of the main run restricted to claims made before the barrier, <= 5 calls within the first 300 ms, loss 0/20/50 %, on tokio multi_thread runtimes with 2/4/16 workers in real time (run ends when the log is quiet); oracle only (owner's MAC, never an unclaimed address, only owners announce, budget respected with 0.4 s scheduling slack, claimed + loss-free => Ok, agreement); non-trivial = >= 2 calls and an Ok answer";
+
 fn case_of_spec(spec: &str) -> Option<Case> {
-    if let Some(rest) = spec.strip_prefix("replay\n") {
-        return Case::from_lines(rest.lines());
+    if spec.starts_with("replay") {
+        return Case::from_lines(spec.lines().skip(1));
     }
     let w: Vec<&str> = spec.split_whitespace().collect();
     match w.as_slice() {
         ["fixed", k] => fixed_cases().get(k.parse::<usize>().ok()?).cloned(),
         ["gen", seed] => Some(gen(&mut Rng::new(seed.parse().ok()?))),
+        ["genmt", seed, _workers] => Some(gen_mt(&mut Rng::new(seed.parse().ok()?))),
         _ => None,
     }
 }
 
 fn worker_case(spec: &str) -> CaseReport {
+    let mt_workers: Option<usize> = match spec.split_whitespace().collect::<Vec<_>>().as_slice() {
+        ["genmt", _, w] => w.parse().ok(),
+        ["replay", rest @ ..] => rest.iter().find_map(|x| x.strip_prefix("mt=")).and_then(|w| w.parse().ok()),
+        _ => None,
+    };
     match case_of_spec(spec) {
+        Some(c) if mt_workers.is_some() => run_case_mt(&c, mt_workers.unwrap()),
         Some(c) => run_case(&c),
         None => {
             let mut r = CaseReport::default();
@@ -935,15 +1123,26 @@ pub fn run(args: &Args) {
         return;
     }
     let mut out = Out::new(&args.out);
+    let mt = args.prop == "c06-mt";
     let specs: Vec<String> = if let Some(rp) = &args.replay {
-        vec![format!("replay\n{}", read_ops(rp).into_iter().filter(|l| l.starts_with("cfg ")).collect::<Vec<_>>().join("\n"))]
+        let ops = read_ops(rp);
+        let head = match ops.iter().find_map(|l| l.strip_prefix("mt ")) {
+            Some(w) if mt => format!("replay mt={}", w.trim()),
+            _ => "replay".to_string(),
+        };
+        vec![format!("{}\n{}", head, ops.into_iter().filter(|l| l.starts_with("cfg ")).collect::<Vec<_>>().join("\n"))]
+    } else if mt {
+        let mut rng = Rng::new(args.seed);
+        (0..args.cases).map(|i| format!("genmt {} {}", rng.next(), [2usize, 4, 16][i as usize % 3])).collect()
     } else {
         let mut rng = Rng::new(args.seed);
         let mut v: Vec<String> = (0..fixed_cases().len()).map(|k| format!("fixed {}", k)).collect();
         v.extend((0..args.cases).map(|_| format!("gen {}", rng.next())));
         v
     };
-    for (c, o) in run_cases(&args.prop, &specs, default_workers(), 25, 120).iter().enumerate() {
+    // real-time cases mostly sleep: run more of them side by side
+    let (procs, batch) = if mt { (6, 4) } else { (default_workers(), 25) };
+    for (c, o) in run_cases(&args.prop, &specs, procs, batch, 120).iter().enumerate() {
         out.begin_case(c as u64);
         match o {
             CaseOutcome::Done(rep) => rep.emit(&mut out),
@@ -960,5 +1159,5 @@ pub fn run(args: &Args) {
         }
         out.end_case();
     }
-    out.finish(RULE);
+    out.finish(if mt { RULE_MT } else { RULE });
 }
